@@ -694,6 +694,27 @@ def gen_special(rng, hid, which):
             sc.advance(rng.choice([500, 2000]))
             sc.deliver([r_a(s.addr_owner, "192.168.1.%d" % rng.randrange(200, 250), 120)], 2, v4=True)   # a new address: resolved again
         return sc.finish(rng.choice([2500, 5000]))
+    if which == "stale-resolve":
+        # finding C04-stale-resolve-overlaps-series: the PTR arrives a datagram (or 100 ms) before the rest, so a
+        # Resolve command is queued and the instance is resolved; the command is still queued (late
+        # schedule: no iteration at its due time, or < 500 ms) when the instance becomes invalid and a new
+        # record starts a new series; a later new record then starts yet another one
+        sc.exact = False
+        s = Svc(rng, rng.choice(INST_LABELS), TY1, rng.choice(HOSTS), 2)
+        s.ttl_ptr = 4500; s.ttl_srv = rng.choice([10, 5]); s.ttl_a = 120; s.ttl_txt = 4500; s.addrs = s.addrs[:1]
+        sc.advance(100)
+        sc.deliver(s.recs("PA"), 2, v4=True)
+        if rng.random() < 0.5:
+            sc.advance(100)
+        sc.deliver(s.recs("ST"), 2, v4=True)
+        late = rng.random() < 0.7
+        sc.advance(s.ttl_srv * 1000 - rng.choice([0, 0, 300]), exact=not late)
+        sc.deliver([r_a(s.addr_owner, "192.168.1.%d" % rng.randrange(200, 250), 10)], 2, v4=True)
+        if rng.random() < 0.8:
+            sc.advance(rng.choice([799, 1001]), exact=rng.random() < 0.5)
+            sc.deliver([r_txt(s.inst, [(b"k", b"dup")], 4500, cls=1)], 2, v4=True)
+        sc.exact = True
+        return sc.finish(4000)
     if which == "found-withdrawn":
         # a PTR record and its goodbye in ONE packet (finding C04-found-withdrawn-in-same-message), or in
         # two packets of one iteration / the goodbye first (controls: must pass)
